@@ -10,6 +10,7 @@ inductive UdPlugin where
   | absent                      -- import fails with ImportError / ModuleNotFoundError
   | echo                        -- returns json.dumps({"subType":…, "version":…, "data": hex})
   | raises (msg : Text)         -- parseUDToJson raises Exception(msg)
+  | importRaises (msg : Text)   -- the module exists but executing it raises an exception that is not an ImportError
   | returnsNone
   | returnsText (t : Text)      -- returns this text verbatim
 deriving Repr
@@ -57,6 +58,11 @@ def parseUserData (T : Tables) (env : UdEnv) (allowPlugins : Bool) (creator : Te
     | .absent => .json (hexdumpJ data)
     | .echo => .json (.obj [kv "subType" (jnum sub), kv "version" (jnum ver), kv "data" (jstr (bytesHexL data))])
     | .raises msg =>
+      .json (errorWithData (s "Failed parsing user data for creator=" ++ creator ++ s " compID=0x" ++ fmtHex 4 comp ++
+        s " subType=0x" ++ fmtHex 1 sub ++ s " version=" ++ natDec ver ++ s " Exception=" ++ msg) data)
+    | .importRaises msg =>
+      -- `importlib.import_module` raises inside the `try`: handled by the same `except Exception` as a failing call
+      -- (nothing is cached: `sys.modules` keeps no entry for a module whose execution failed)
       .json (errorWithData (s "Failed parsing user data for creator=" ++ creator ++ s " compID=0x" ++ fmtHex 4 comp ++
         s " subType=0x" ++ fmtHex 1 sub ++ s " version=" ++ natDec ver ++ s " Exception=" ++ msg) data)
     | .returnsNone =>
